@@ -70,6 +70,13 @@ CHECKS = {
         technique=MC_TECH + " (all argument tuples over small multi-byte alphabets for every listed std function, differential against reference definitions and hashlib)",
         design="DESIGN.md §4 C11",
     ),
+    "C12": dict(
+        category="exploration",
+        text="The full cross product of flag subsets (32) x widths {none,0,1,5,*} x precisions {none,.0,.1,.3,.*} x 14 conversions applied to 23 values, in array mode, embedded in literal text through std.format, in %(key) object mode, with argument-count errors, plus every string of length <= 5 over a 14-character alphabet as a (mal)formed format string with array and object arguments; expected text or error from Python's %-formatting on the cells where Python and Jsonnet coincide by definition, crash-freedom everywhere.",
+        note="Trusted: Python 3.11 %-formatting (oracles/format_oracle.py) on the shared sub-grid; the exclusion rules listed in the evidence assumptions.",
+        technique=MC_TECH + " (full cross product of format codes x values + all short format strings, differential against Python %-formatting)",
+        design="DESIGN.md §4 C12",
+    ),
 }
 
 
